@@ -25,7 +25,15 @@ type budget struct {
 	Seconds   int // per worker
 }
 
+type partDef struct {
+	World   string
+	Race    bool
+	Overlay bool
+	Env     []string
+}
+
 type checkDef struct {
+	Parts    []partDef // several worlds serving one property; workers are dealt round-robin
 	ID       string
 	World    string // package under harness/worlds
 	Race     bool
@@ -56,6 +64,10 @@ func checks() map[string]*checkDef {
 		Assume: []string{"failure reasons are compared as sets of lines (the engine concatenates per-file errors in encounter order)", "Go map iteration order inside the library is sampled by repeating every schedule, not controlled", "for multi-root scans only what the statement fixes about statuses is asserted"}})
 	add(&checkDef{ID: "C20", World: "scan", Level: "exploration", Quick: budget{8, 3000, 120}, Thorough: budget{16, 3000000, 900}, Real: scanReal, Stub: scanStub,
 		Assume: []string{"findings whose advisory is present but whose advisory ID is nil are not generated (statement does not say what must happen)"}})
+	add(&checkDef{ID: "C16", Level: "exploration", Quick: budget{6, 300, 120}, Thorough: budget{16, 1000000, 1500},
+		Parts: []partDef{{World: "scan", Race: true}},
+		Real:  append([]string{"testing/synctest fake clock driving the engine's 2 s status ticker", "Go race detector"}, scanReal...), Stub: scanStub,
+		Assume: []string{"interleavings are explored at seam granularity; unsynchronised memory access between arbitrary instructions is left to the race detector"}})
 	return m
 }
 
@@ -117,7 +129,14 @@ func prepareModfile(repo string) string {
 	return modPath
 }
 
-func buildWorld(c *checkDef, repo string) string {
+func (c *checkDef) parts() []partDef {
+	if len(c.Parts) > 0 {
+		return c.Parts
+	}
+	return []partDef{{World: c.World, Race: c.Race, Overlay: c.Overlay, Env: c.Env}}
+}
+
+func buildWorld(c partDef, repo string) string {
 	mod := prepareModfile(repo)
 	name := c.World
 	args := []string{"test", "-c", "-modfile=" + mod, "-vet=off"}
@@ -170,14 +189,15 @@ func main() {
 	if os.Args[1] == "build" {
 		seen := map[string]bool{}
 		for _, id := range sortedIDs(defs) {
-			c := defs[id]
-			k := fmt.Sprint(c.World, c.Race, c.Overlay)
-			if seen[k] {
-				continue
+			for _, c := range defs[id].parts() {
+				k := fmt.Sprint(c.World, c.Race, c.Overlay)
+				if seen[k] {
+					continue
+				}
+				seen[k] = true
+				fmt.Printf("building world %s (race=%v overlay=%v)\n", c.World, c.Race, c.Overlay)
+				buildWorld(c, repo)
 			}
-			seen[k] = true
-			fmt.Printf("building world %s (race=%v overlay=%v)\n", c.World, c.Race, c.Overlay)
-			buildWorld(c, repo)
 		}
 		return
 	}
@@ -200,7 +220,11 @@ func main() {
 	}
 	seed, _ := strconv.ParseInt(env("VERIF_SEED", "1"), 10, 64)
 	start := time.Now()
-	bin := buildWorld(c, repo)
+	parts := c.parts()
+	bins := make([]string, len(parts))
+	for i, p := range parts {
+		bins[i] = buildWorld(p, repo)
+	}
 	buildS := time.Since(start).Seconds()
 
 	b := c.Quick
@@ -235,7 +259,11 @@ func main() {
 			defer wg.Done()
 			outp := filepath.Join(runDir, fmt.Sprintf("w%d.json", w))
 			timeout := time.Duration(b.Seconds)*time.Second + 5*time.Minute
-			cmd := exec.Command(bin, "-test.run", "^TestWorker$", "-test.timeout", "0", "-test.cpu", "1")
+			pi := w % len(parts)
+			if replay != "" {
+				pi = replayPart(replay, len(parts))
+			}
+			cmd := exec.Command(bins[pi], "-test.run", "^TestWorker$", "-test.timeout", "0", "-test.cpu", "1")
 			cmd.Dir = runDir
 			cmd.Env = append(os.Environ(),
 				"VERIF_PROP="+c.ID, "VERIF_TIER="+tier, fmt.Sprintf("VERIF_SEED=%d", seed),
@@ -244,8 +272,10 @@ func main() {
 				"VERIF_OUT="+outp, "VERIF_REPLAY_DIR="+replayDir, "VERIF_KNOWN="+filepath.Join(verifDir, "known_findings.json"),
 				"VERIF_SCRATCH="+filepath.Join(runDir, fmt.Sprintf("scratch%d", w)),
 				"GORACE=log_path="+filepath.Join(runDir, fmt.Sprintf("race%d", w))+" halt_on_error=0 exitcode=0",
+				"VERIF_RACE_LOG="+filepath.Join(runDir, fmt.Sprintf("race%d", w)),
+				fmt.Sprintf("VERIF_PART=%d", pi),
 				"GOMAXPROCS="+env("VERIF_GOMAXPROCS", "2"))
-			cmd.Env = append(cmd.Env, c.Env...)
+			cmd.Env = append(cmd.Env, parts[pi].Env...)
 			if replay != "" {
 				cmd.Env = append(cmd.Env, "VERIF_REPLAY="+replay, "VERIF_REPLAY_REPS="+env("VERIF_REPLAY_REPS", "1"))
 			}
@@ -338,7 +368,19 @@ func main() {
 	cov["scenarios"] = scen
 	cov["distinct_nontrivial"] = len(fps)
 	cov["nontrivial_scenarios"] = nontriv
-	cov["rule"] = ruleOf(c.ID)
+	rules := map[string]bool{}
+	var ruleList []string
+	for _, r := range results {
+		if r != nil && r.Rule != "" && !rules[r.Rule] {
+			rules[r.Rule] = true
+			ruleList = append(ruleList, r.Rule)
+		}
+	}
+	sort.Strings(ruleList)
+	cov["rule"] = strings.Join(ruleList, " || ")
+	if len(ruleList) == 0 {
+		cov["rule"] = ruleOf(c.ID)
+	}
 	cov["samples"] = samples
 	cov["distinct_histories"] = len(hists)
 	cov["counters"] = counters
@@ -453,4 +495,19 @@ func tail(s string, n int) string {
 		lines = lines[len(lines)-n:]
 	}
 	return strings.Join(lines, "\n")
+}
+
+// replayPart reads the "part" recorded in a replay file's scenario (0 if absent).
+func replayPart(path string, n int) int {
+	b, err := os.ReadFile(path)
+	if err != nil {
+		return 0
+	}
+	var rf struct {
+		Part int `json:"part"`
+	}
+	if json.Unmarshal(b, &rf) != nil || rf.Part < 0 || rf.Part >= n {
+		return 0
+	}
+	return rf.Part
 }
